@@ -26,8 +26,10 @@ class Contract:
     assumed = False          # True: contract of a dependency / external (never verified here)
     ext_may_raise = False
     max_paths = 4000
+    symbolic_sets = {}       # local name -> element kind ("int" | "key" | callable(E) -> kind): `name = set()` creates an unbounded symbolic set
     symbolic_dicts = {}      # local name -> key kind ("int"): `name = {}` in the function under contract creates an unbounded symbolic map
     pyx_source = ()          # .pyx files whose extracted text is executed when Python code under this contract imports from them
+    allow_unconstrained_exit = False   # True: a variant may return normally without any postcondition / frame clause (otherwise: vacuity error)
     sequential = False       # True: the clauses of ensures / of an invariant are proved in order, each a hypothesis of the later ones
 
     # -- to be overridden
@@ -191,10 +193,21 @@ def verify_function(repo, contracts, c, registry=None, scope=None, opts=None):
                 else:
                     for name, g in named(sig).items():
                         E.oblige("%s.%s.signals.%s.%s" % (c.prop, qn, exc.cls, name), g, "signals", exc.node)
+            n_exit = 0
             for name, g in named(c.at_exit(E, a, old, exc.cls if exc else None)).items():
                 E.oblige("%s.%s.exit.%s" % (c.prop, qn, name), g, "frame")
+                n_exit += 1
+            if exc is None:
+                normal_exits[0] += 1
+                if post or n_exit:
+                    constrained_exits[0] += 1
+        normal_exits, constrained_exits = [0], [0]
         try:
             E.explore(run_one)
+            if normal_exits[0] and not constrained_exits[0] and not getattr(c, "allow_unconstrained_exit", False):
+                # vacuity guard per variant: the function returns normally on some path and the contract says nothing there
+                raise Unsupported("variant %r of the contract states no postcondition and no frame on any normal exit (vacuous: e.g. a "
+                                  "postcondition skipped by mistake)" % (variant,))
         except Unsupported as u:
             rep.unsupported = "%s" % u
             break
